@@ -303,9 +303,14 @@ def plain_structs(n, maxfields, accesses=('r', 'w', 'rw', '')):
     out = []
     for k in range(1, maxfields + 1):
         for fs in itertools.product(fopts, repeat=k):
-            for dflt in (None, 1):
+            for dflt in (None, 1, 'const'):
                 fields = [Field([r], 'u', access=a, name=f"f{i}", form='bits') for i, (r, a) in enumerate(fs)]
-                out.append(Struct(n, fields, default=dflt, name="S", family=f"PLAIN{n}"))
+                if dflt == 'const':
+                    # the default written as a named constant (only for the 1- and 2-field structs: it must behave like the literal)
+                    if k <= 2:
+                        out.append(Struct(n, fields, default=1, default_form='const', default_sep=':' if len(out) % 2 else '=', name="S", family=f"PLAIN{n}"))
+                else:
+                    out.append(Struct(n, fields, default=dflt, name="S", family=f"PLAIN{n}"))
     return out
 
 
@@ -316,6 +321,11 @@ def bld_families():
         for i, f in enumerate(fields):
             f.name = f"f{i}"
         out.append(Struct(n, fields, default=dflt, name="S", family=fam))
+        if dflt is not None and len(out) % 2 == 0:
+            # the same layout with the default written as a named constant / with the legacy spelling
+            import dataclasses
+            out.append(Struct(n, [dataclasses.replace(f) for f in fields], default=dflt, default_form='const', default_sep=':' if len(out) % 4 == 0 else '=',
+                              name="S", family=fam))
 
     # multi-range arrays: adjacent and non-adjacent element overlap, interleaving
     for n in (8, 16):
